@@ -44,6 +44,8 @@ Cases ==
     [] Mode = "prune"  -> {[op |-> "prune", ts |-> t, c |-> V(Single(a))] : a \in SingleAssignments, t \in 0..T}
     [] Mode = "bounds" -> {[op |-> "bounds", lo |-> lo, hi |-> hi, c |-> V(Single(a))] : a \in SingleAssignments, lo \in BoundSet, hi \in BoundSet}
     [] Mode = "lazy"   -> {[op |-> "lazy", s |-> Single(a)] : a \in SingleAssignments}
+    \* a single table: the harness builds the leaf as a real block or SST (C10)
+    [] Mode = "table"  -> {V(Single(a)) : a \in SingleAssignments}
     \* merge of pruned lazies / concats, pruned and bounded again: the shape of a store scan
     [] Mode = "scan"   -> {[op |-> "bounds", lo |-> lo, hi |-> hi, c |->
                               [op |-> "prune", ts |-> t, c |->
@@ -83,6 +85,19 @@ Ext1(op) == LET c1 == Apply(c, op)  p1 == AApply(d, p, op)
             IN <<Code(APosKey(d, p1)), Code(Key(c1)),
                  [i \in 1..Len(OpSeq) |-> Code(APosKey(d, AApply(d, p1, OpSeq[i])))],
                  [i \in 1..Len(OpSeq) |-> Code(Key(Apply(c1, OpSeq[i])))]>>
+\* C10: what a sealed table must answer besides cursor movement: timestamped point lookups, metadata,
+\* and which appended entry the builder must refuse (anything not strictly after the last entry)
+TableFacts ==
+  LET S == SeqToSet(d)
+      ne == d # <<>>
+  IN [s |-> d,
+      loads |-> {<<k, t, Code(IF NewestLE(S, k, t) = {} THEN NoEntry ELSE CHOOSE e \in NewestLE(S, k, t) : TRUE)>> : k \in 0..K+1, t \in 0..T+1},
+      first |-> IF ne THEN d[1].k ELSE 0, last |-> IF ne THEN d[Len(d)].k ELSE 0,
+      mints |-> IF ne THEN CHOOSE t \in {e.ts : e \in S} : \A e \in S : t <= e.ts ELSE 0,
+      maxts |-> IF ne THEN CHOOSE t \in {e.ts : e \in S} : \A e \in S : t >= e.ts ELSE 0,
+      refuse |-> IF ne THEN {<<k, t>> : k \in 1..K, t \in 1..T} \ {<<k, t>> \in (1..K) \X (1..T) : Less(d[Len(d)], [k |-> k, ts |-> t, v |-> 1])}
+                 ELSE {}]
+EmitTable == (Emit /\ Mode = "table" /\ h = <<>>) => PrintT(<<"TABLE", ToJson(TableFacts)>>)
 EmitLine == Emit => PrintT(<<"REPLAY", ToJson([x |-> expr, h |-> h, ops |-> OpSeq,
                                               n |-> [i \in 1..Len(OpSeq) |-> Ext1(OpSeq[i])]])>>)
 =============================================================================
